@@ -63,6 +63,16 @@ Theorem C10_judgement_transfer : forall a steps o, JudgeDataP.steps_wf10 a steps
 Proof. exact JudgeDataP.C10_judgement_transfer. Qed.
 
 
+(* ---- app stage: the executable judgement of coq/Check is sound for the model on every scenario of the profile, and transfers
+   to every trace that agrees with the model's run ---- *)
+From BEI Require Check.C10a Proofs.JudgeC10P.
+Theorem C10_app_judgement_sound : forall sc, JudgeC10P.profile_C10b sc = true -> C10a.ok (sc, App.trace (App.run sc)) = 0%Z.
+Proof. exact JudgeC10P.C10_app_judgement_sound. Qed.
+
+Theorem C10_app_judgement_transfer : forall sc t, JudgeC10P.profile_C10b sc = true -> App.agree_full (sc, t) = true -> C10a.ok (sc, t) = 0%Z.
+Proof. exact JudgeC10P.C10_app_judgement_transfer. Qed.
+
+
 Print Assumptions C10_recurrences.
 Print Assumptions C10_closed_form.
 Print Assumptions C10_bounds.
@@ -84,3 +94,5 @@ Proof. exact held_run_durations. Qed.
 Print Assumptions C10_world_durations.
 Print Assumptions C10_judgement_sound.
 Print Assumptions C10_judgement_transfer.
+Print Assumptions C10_app_judgement_sound.
+Print Assumptions C10_app_judgement_transfer.
